@@ -1529,7 +1529,9 @@ fn prov(ty: &str, label: &str, k: u64) -> Option<Result<Vec<u8>, ()>> {
                         tb.add_output(&TransactionOutput::new(&g.key_address(), &out_v))?;
                         tb.set_fee(&bn(8 * ADA));
                         tb.add_change_if_needed(&change)?;
-                        Ok(tb.build_tx()?.to_bytes())
+                        // judged on the body build() releases: build_tx's structural balance check refuses a total input that
+                        // carries the zero-quantity minted entry no output can carry any more
+                        Ok(Transaction::new(&tb.build()?, &TransactionWitnessSet::new(), None).to_bytes())
                     }
                     "pin_collateral_zero_only_policy" => {
                         // the ONLY asset-carrying collateral input: policy A with a real asset, policy B with only a zero quantity
